@@ -47,11 +47,10 @@ static const cfg_t cfgs[] = {
       { K_ULT, K_ULT }, 0 },
     { "hist ULT+ULT D7", 0, M_HIST, { K_ULT, K_ULT }, 7 },
     { "hist ULT+TASK D7", 0, M_HIST, { K_ULT, K_TASK }, 7 },
-    { "hist ULTM+ULT D7", 0, M_HIST, { K_ULTM, K_ULT }, 7 },
+    { "hist ULTM+ULT D6", 0, M_HIST, { K_ULTM, K_ULT }, 6 },
     { "hist TASK+TASK D7", 0, M_HIST, { K_TASK, K_TASK }, 7 },
     { "rev3 ULT full", 0, M_REV3, { K_ULT, K_ULT }, 1 },
     { "rev3 ULTM full", 0, M_REV3, { K_ULTM, K_ULT }, 1 },
-    { "hist ULT+ULT D8", 0, M_HIST, { K_ULT, K_ULT }, 8 },
 };
 
 #define MAXGEN 16
